@@ -17,6 +17,7 @@ THEOREMS = [
     "Remoc.Link.relay_complete",
     "Remoc.Link.rinvariant_step",
     "Remoc.Link.lr_closed_classified",
+    "Remoc.Link.lr_classification_exact",
     # typed channels with a local queue (M_close)
     "Remoc.Close.mpsc_queued_suffix_dropped",
     "Remoc.Close.mpsc_end_drops_exactly_queue",
@@ -70,7 +71,7 @@ LEVEL_TEXT += (" Queued typed channels (rch::mpsc incl. several sender clones lo
                "a clean end-of-stream, which comes only after every sender reference is gone or closed "
                "(mpsc_close_keeps_transmitted[_before], mpsc_eos_after_all_senders); oneshot: at most one value, same classification, "
                "handle Ok iff transmitted (oneshot_closed_classified). rch::lr and rch::base have no queue: their statements are the "
-               "M_link theorems (close_classified read through lrReason).")
+               "M_link theorems (close_classified read through lrReason; lr_classification_exact: the reason is Closed only after close(), Dropped only after a drop without close, and exactly what the receiving side did first once the back direction is drained).")
 LEVEL_NOTE = ("Typed channels: mpsc/oneshot by theorems over M_close tied to the code by predicates on real runs and a per-link replay "
               "whose schedule is reconstructed from the observations (not a step-by-step trace of send_impl/recv_impl); base, lr, "
               "bin by correspondence runs and the M_link theorems. Known model/code subtleties stated in the theorems rather than "
